@@ -20,7 +20,7 @@ Same(a, b) == /\ a.ev = b.ev
               /\ (a.ev = "End" => a.kind = b.kind)
               /\ (a.ev = "Call" => a.gen = b.gen)
 Visible == \/ Enter \/ CallRejected \/ Done \/ Step \/ Submit
-           \/ \E g \in BOOLEAN : Call(g)
+           \/ \E g \in BOOLEAN : Call(g) \/ CallFailsAtOnce(g)
            \/ \E k \in Kinds : End(k)
 TNext == \/ /\ More /\ Visible /\ Same(last', Ev) /\ l' = l + 1 /\ t' = t
          \/ /\ More /\ (ExitBegin \/ SetupFails \/ \E e \in BOOLEAN : Finalise(e)) /\ l' = l /\ t' = t
